@@ -16,6 +16,7 @@
     expectedAnswer site e head             the answer as a function of (site, configuration, head) only
 -/
 import LtVerif.Proofs.Server
+import LtVerif.Proofs.ErrHandler
 namespace LtVerif.C08
 open LtVerif LtVerif.B LtVerif.Req
 
@@ -367,5 +368,58 @@ example : (match parseSemH1 ⟨9567⟩ (ofString "GET") (ofString "/a.txt?x=1") 
                      r2.host = r1.host ∧ r1.headers.length = 3 ∧ t1 = t2 ∧ t1.path = ofString "/a.txt" ∧
                      t1.query = ofString "x=1")
            | _, _ => false) = true := by decide +kernel
+
+/-! ### error handlers (Model/ErrHandler.lean: http_response_has_error_handler(),
+    http_response_call_error_handler(), the loop of http_response_handler()) -/
+
+open LtVerif.ErrH in
+/-- Once error_handler_saved_status is set (an error handler has been installed for this request, or
+    has run), http_response_has_error_handler() never installs one again, for every configuration and
+    every state: the error handler cannot recurse, and what an earlier pass saved is not overwritten. -/
+theorem c08_error_handler_not_reinstalled (c : Cfg) (s : EhSt) (h : s.savedStatus ≠ 0) :
+    (hasErrorHandler c s).2 = false := hasErrorHandler_saved c s h
+
+open LtVerif.ErrH in
+example : (hasErrorHandler ⟨true, true, false⟩
+    { afterReset 3 1 5 5 false 7 with status := 404, savedStatus := 404, savedMethod := 3, method := 0 }).2 = false := by
+  decide +kernel
+
+open LtVerif.ErrH in
+/-- The carried member error_handler_saved_method (NOT restored by request_reset(): reqpool.c:131) cannot
+    leak from an earlier request: for every configuration, every pass function that neither touches
+    that member nor writes error_handler_saved_status (`PrepOk`: modules, http_response_prepare(),
+    http_response_comeback()), every number of passes, and every state with
+    error_handler_saved_status = 0 (what request_reset() leaves), the outcome of the loop of
+    http_response_handler() -- every other modelled member and the pass count -- is the same whatever
+    stale value `m` the member holds. -/
+theorem c08_error_handler_stale_method_unread (c : Cfg) (prep : Nat → EhSt → EhSt) (hp : PrepOk prep)
+    (fuel k : Nat) (s : EhSt) (m : Int) (h : s.savedStatus = 0) :
+    obsOf (handle c prep fuel k { s with savedMethod := m }) = obsOf (handle c prep fuel k s) := by
+  apply handle_rel c hp
+  exact ⟨by simp [EhSt.obs], fun hs => by simp [h] at hs⟩
+
+open LtVerif.ErrH in
+/-- The loop of http_response_handler() comes back for an error handler at most once: for every
+    configuration, every `PrepOk` pass function and every start state, two passes always produce the
+    answer, and more fuel never changes it (error handlers do not nest; the second pass is the last). -/
+theorem c08_error_handler_at_most_one_comeback (c : Cfg) (prep : Nat → EhSt → EhSt) (hp : PrepOk prep)
+    (n : Nat) (s : EhSt) :
+    handle c prep (n + 2) 0 s = handle c prep 2 0 s ∧ (handle c prep 2 0 s).isSome = true :=
+  handle_two_passes c hp n s
+
+open LtVerif.ErrH in
+example :
+    let prep : Nat → EhSt → EhSt := fun _ s => { s with status := 404 }
+    (handle ⟨true, true, false⟩ prep 2 0 (afterReset 0 1 0 0 false 0)).map (fun r => (r.1.status, r.2)) = some (404, 1) := by
+  decide +kernel
+
+open LtVerif.ErrH in
+example :
+    let prep : Nat → EhSt → EhSt := fun k s => if k = 0 then { s with status := 404 } else { s with status := 200 }
+    let c : Cfg := ⟨true, false, false⟩
+    obsOf (handle c prep 3 0 (afterReset 3 1 5 2 true 7)) = obsOf (handle c prep 3 0 (afterReset 3 1 5 2 true 1)) ∧
+    (handle c prep 3 0 (afterReset 3 1 5 2 true 7)).map (fun r => (r.1.status, r.1.method, r.1.keepAlive, r.2)) =
+      some (404, 3, 0, 1) := by
+  decide +kernel
 
 end LtVerif.C08
